@@ -180,9 +180,9 @@ def genC17Cases (tier : String) (seed : Nat) : Array Case := Id.run do
             let outer ← genFlatParts (← liftG (range 1 3)) 1
             let inner ← genFlatParts (← liftG (range 1 2)) 0
             let t ← genGTree {} (← liftG (range 2 3))
-            let sym ← liftG (pick (Sym.nestables.filter (fun s => !s.isProperty)))
+            let sym ← liftG (pick (Sym.nestables.filter (fun (s : Sym) => !s.isProperty)))
             let anno ← liftG (pick ["consequence=sanction", "ctx=y", "type=x"])
-            pure (.mk (outer ++ [.nested { sym := sym, anno := some anno.toList } (.mk (inner ++ [.pairs t]))]))
+            pure (Stmt.mk (outer ++ [Part.nested { sym := sym, anno := some anno.toList } (Stmt.mk (inner ++ [Part.pairs t]))]))
           let (s, _) ← g.run 0
           pure s) rng
     rng := rng'
